@@ -318,12 +318,9 @@ def main():
     broken = []          # broken obligations / ties (strings)
     info = []
 
-    # 1. translators
-    broken += ["translator: " + m for m in run_gen(P.get("gen", []))]
-
-    # 2. harness from the current tree
+    # 1. harness from the current tree (gen_emit.py runs the real emitter through it)
     need_jit = any(s.get("jit") or s.get("join") for s in P["streams"])
-    need_nojit = any((not s.get("jit")) or s.get("join") for s in P["streams"])
+    need_nojit = any((not s.get("jit")) or s.get("join") for s in P["streams"]) or "gen_emit.py" in P.get("gen", [])
     for jit in ([False] if need_nojit else []) + ([True] if need_jit else []):
         rc, out = build_harness(jit)
         if rc != 0:
@@ -334,6 +331,9 @@ def main():
         rc, out, _ = build_repo_bin()
         if rc != 0:
             broken.append("gb-dynarec binary build failed")
+
+    # 2. translators
+    broken += ["translator: " + m for m in run_gen(P.get("gen", []))]
 
     # 3. proofs
     rc, out = lake_build(["GbVerif.Props." + pid, "gbdriver"])
